@@ -94,7 +94,7 @@ static void head_(void *node_pp, void *depth_p, void *rk_p) {
 #endif
   }
   { uint64_t qc = nv_child(&GV0, kbyte(IN_Q, IN_depth + G_L)), kc = nv_child(&GV0, G_b);     /* every child that is not materialised here is an opaque subtree */
-    __CPROVER_assume(qc == 0 || qc == G_leafw || qc == G_survw || !adt_known(qc)); __CPROVER_assume(kc == 0 || kc == G_leafw || !adt_known(kc));
+    { uint8_t qb_ = kbyte(IN_Q, IN_depth + G_L); __CPROVER_assume(qc == 0 || (qc == G_leafw && qb_ == G_b && G_leaf) || (qc == G_survw && G_surv && qb_ == G_survb) || !adt_known(qc)); }   /* a tree, not a DAG: a materialised child hangs under exactly its own key byte */ __CPROVER_assume(kc == 0 || kc == G_leafw || !adt_known(kc));
     if (G_surv && (G_survw & 7) != T_LEAF) { struct nview sv; nv_load(&sv, G_surv, SURV); uint64_t sc = nv_child(&sv, kbyte(IN_Q, IN_depth + G_L + 1 + NV_PREFIX_LEN(&sv))); __CPROVER_assume(sc == 0 || !adt_known(sc)); } }
   if (G_leaf) { G_leaf_key = LEAF_KEY(G_leaf); G_leaf_sz = LEAF_ALLOC_SIZE(LEAF_VLEN(G_leaf)); }
   G_before_Q = G_in_scope ? sub_ans(G_old, IN_depth, IN_Q, 2) : NONE;
